@@ -47,12 +47,14 @@ def parseSrc (j : Json) : Except String SrcKind := do
   | "proj" =>
     let own := match (j.getObjVal? "own") with | .ok (Json.bool b) => b | _ => false
     pure (.proj (← fNat j "x") (← fStr j "srcRank") (← fInt j "off") (← parseOptInt j "lo") (← parseOptInt j "hi") own)
+  | "dense" => pure (.dense (← fNat j "x") (← fNat j "shape"))
   | s => throw s!"C16: unknown source kind {s}"
 
 def parseLevel (j : Json) : Except String Level := do
   let pop := match (j.getObjVal? "pop") with | .ok (Json.bool b) => b | _ => false
+  let zU := match (j.getObjVal? "zU") with | .ok (Json.bool b) => b | _ => false
   pure { rank := (← fStr j "rank"), src := (← parseSrc (← field j "src")), pop := pop,
-         insertPos := fIntD j "insertPos" 0 }
+         insertPos := fIntD j "insertPos" 0, zU := zU }
 
 def parseKey (j : Json) : Except String Key := do
   match (← asList j) with
@@ -124,7 +126,7 @@ def hasEmptyElems (dflt : Int) : (d : Nat) → Tree Int Int d → Bool
       (fun e => isEmpty dflt d e.2 || hasEmptyElems dflt d e.2)
 
 def srcTag : SrcKind → String
-  | .fiber _ => "fiber" | .and .. => "and" | .lf .. => "lf" | .proj .. => "proj"
+  | .fiber _ => "fiber" | .and .. => "and" | .lf .. => "lf" | .proj .. => "proj" | .dense .. => "dense"
 
 def tyFamily (ty : String) : String :=
   if ty.startsWith "intersect_" then "intersect"
@@ -185,7 +187,7 @@ def handleKernel (j : Json) : Except String Verdict := do
   let tags := dedup (
     (if stagingRows "populate_write_0" then ["inserting:staging-write"] else []) ++
     (if stagingRows "populate_read_0" then ["inserting:move-from-staging"] else []) ++
-    levels.map (fun lv => (if lv.pop then "pop+" else "") ++ srcTag lv.src) ++
+    levels.map (fun lv => (if lv.pop then (if lv.zU then "popU+" else "pop+") else "") ++ srcTag lv.src) ++
     [s!"depth{D}"] ++
     (if stt.saved > stt.bumps then ["project-use"] else []) ++
     (if stt.bumps > 0 then ["dest-write"] else []) ++
